@@ -77,6 +77,21 @@ Definition step_wf (E : menv) (s : step) : Prop :=
 Section Steps.
 Variable E : menv.
 
+(* session.ensureQueryBasedGroups = modifiers.ReevaluateGroups *)
+Lemma ensure_spec : forall c c' evs,
+  wf_contact E c ->
+  ensure_query_groups E c = (c', evs) ->
+  c' = with_groups c (c_groups c')
+  /\ wf_contact E c'
+  /\ Consistent E c'
+  /\ (is_active c = false -> c_groups c' = [])
+  /\ group_events_sum evs (c_groups c) = c_groups c'
+  /\ (evs = [] /\ c_groups c' = c_groups c \/ exists a r, evs = [EGroupsChanged a r]).
+Proof.
+  intros c c' evs Hwf H. unfold ensure_query_groups in H.
+  destruct (reevaluate_groups_spec E c c' evs Hwf H) as [G1 [G2 [G3 [G4 [G5 [_ G7]]]]]]. tauto.
+Qed.
+
 Lemma run_step_spec : forall s c c1 evs,
   wf_contact E c -> step_wf E s ->
   run_step E s c = (c1, evs) ->
@@ -88,13 +103,10 @@ Proof.
     destruct b.
     + eapply after_modifier; eassumption.
     + eapply after_noop_modifier; eassumption.
-  - destruct Hwf as [Hnd Hincl].
-    destruct (ensure_query_groups_spec E c c1 evs Hnd H) as [G1 [G2 [G3 [G4 [G5 G6]]]]].
-    split.
-    + rewrite replay_group_events by (destruct G6 as [[G6 _]|G6]; [left | right]; exact G6).
-      rewrite G4, <- G1. apply same_refl.
-    + split; [exact G2|]. intros g Hg. destruct (in_dec N.eq_dec g (all_groups E)) as [Hi|Hni]; [exact Hi|].
-      apply Hincl. apply G5; [intros [Hi _]; exact (Hni Hi) | exact Hg].
+  - destruct (ensure_spec c c1 evs Hwf H) as [G1 [G2 [_ [_ [G5 G6]]]]].
+    split; [|exact G2].
+    rewrite replay_group_events by (destruct G6 as [[G6 _]|G6]; [left | right]; exact G6).
+    rewrite G5, <- G1. apply same_refl.
   - destruct (contact_json_eqb c c') eqn:Heq; inversion H; subst c1 evs.
     + split; [apply json_eqb_same; exact Heq | exact Hs].
     + split; [cbn; apply erase_same; apply erase_idem | exact Hs].
@@ -147,7 +159,7 @@ Proof.
   destruct (run_steps E (map (fun fm => SApply (fst fm) (snd fm)) acts) c1) as [c2 e2] eqn:H2.
   inversion H; subst c' evs.
   destruct (run_step_spec SEnsure c c1 e1 Hwf I H1) as [_ W1].
-  destruct Hwf as [Hnd _]. destruct (ensure_query_groups_spec E c c1 e1 Hnd H1) as [_ [_ [G3 _]]].
+  destruct (ensure_spec c c1 e1 Hwf H1) as [_ [_ [G3 _]]].
   eapply apply_steps_consistent; eassumption.
 Qed.
 
@@ -160,7 +172,7 @@ Proof.
   intros k acts Hk Hms.
   assert (Happ : Forall (step_wf E) (map (fun fm => SApply (fst fm) (snd fm)) acts)).
   { apply Forall_map. eapply Forall_impl; [|exact Hms]. intros [f m] H. exact H. }
-  destruct k as [|[t|]|[c'|] [t|]]; cbn [sprint_steps opt_step app];
+  destruct k as [| |[t|]|[c'|] [t|]]; cbn [sprint_steps opt_step app];
     repeat (constructor; try exact I; try exact Hk); exact Happ.
 Qed.
 
@@ -184,9 +196,10 @@ Proof.
   intros k acts c c' evs Hwf Hk Hms H. unfold run_sprint in H.
   destruct (replay_steps _ c c' evs Hwf (sprint_steps_wf k acts Hk Hms) H) as [R W]. split; [exact R|].
   set (applies := map (fun fm => SApply (fst fm) (snd fm)) acts) in *.
-  assert (Hsplit : exists pre, sprint_steps k acts = pre ++ SEnsure :: match k with KStartEmpty => [] | _ => applies end
+  assert (Hsplit : exists pre, sprint_steps k acts = pre ++ SEnsure :: match k with KStartEmpty | KResumeFailed => [] | _ => applies end
                                /\ Forall (step_wf E) pre).
-  { destruct k as [|[t|]|[c0|] [t|]]; cbn [sprint_steps opt_step app]; fold applies.
+  { destruct k as [| |[t|]|[c0|] [t|]]; cbn [sprint_steps opt_step app]; fold applies.
+    - exists []. split; [reflexivity | constructor].
     - exists []. split; [reflexivity | constructor].
     - exists [SEnsure; SSetInput t]. split; [reflexivity | repeat constructor].
     - exists [SEnsure]. split; [reflexivity | repeat constructor].
@@ -196,10 +209,10 @@ Proof.
     - exists []. split; [reflexivity | constructor]. }
   destruct Hsplit as [pre [Hs Hpre]]. rewrite Hs, run_steps_app in H.
   destruct (run_steps E pre c) as [c1 e1] eqn:H1.
-  destruct (run_steps E (SEnsure :: match k with KStartEmpty => [] | _ => applies end) c1) as [c2 e2] eqn:H2.
+  destruct (run_steps E (SEnsure :: match k with KStartEmpty | KResumeFailed => [] | _ => applies end) c1) as [c2 e2] eqn:H2.
   inversion H; subst c' evs.
   destruct (replay_steps pre c c1 e1 Hwf Hpre H1) as [_ W1].
-  destruct k; [apply (ensure_then_applies [] c1 c2 e2 W1 (Forall_nil _) H2) | |];
+  destruct k; [apply (ensure_then_applies [] c1 c2 e2 W1 (Forall_nil _) H2) | apply (ensure_then_applies [] c1 c2 e2 W1 (Forall_nil _) H2) | |];
     apply (ensure_then_applies acts c1 c2 e2 W1 Hms H2).
 Qed.
 
@@ -288,16 +301,14 @@ Proof.
       destruct Hwf as [Hnd _]. pose proof (apply_no_msg fresh m c c1 e1 bx Hnd HA) as Hno.
       assert (Hex : existsb is_msg e1 = true) by (apply existsb_exists; exists (EMsgReceived t); split; [exact Hin | reflexivity]).
       congruence.
-    + exfalso. unfold ensure_query_groups in H1. destruct (reevaluate_query_groups E c) as [[cur a] r].
-      inversion H1; subst. pose proof (groups_event_no_msg a r) as Hno.
-      assert (Hex : existsb is_msg (groups_event a r) = true) by (apply existsb_exists; exists (EMsgReceived t); split; [exact Hin | reflexivity]).
-      congruence.
+    + exfalso. destruct (ensure_spec c c1 e1 Hwf H1) as [_ [_ [_ [_ [_ [[G _]|[a [r G]]]]]]]]; subst e1;
+        [destruct Hin | destruct Hin as [Hin|[]]; discriminate].
     + exfalso. destruct (contact_json_eqb c c0); inversion H1; subst; [destruct Hin | destruct Hin as [Hin|[]]; discriminate].
     + inversion H1; subst. destruct Hin as [Hin|[]]. inversion Hin. reflexivity.
 Qed.
 
 Definition kind_input (k : sprint_kind) : option N :=
-  match k with KStartEmpty => None | KStart i => i | KResume _ i => i end.
+  match k with KStartEmpty | KResumeFailed => None | KStart i => i | KResume _ i => i end.
 
 (* every msg_received of a sprint is replayed with the time of the message the trigger / resume brought *)
 Theorem sprint_msg_time : forall k acts c c' evs t,
@@ -308,7 +319,7 @@ Proof.
   pose proof (steps_msg_time _ c c' evs t Hwf (sprint_steps_wf k acts Hk Hms) H Hin) as Hs.
   assert (Hnot : ~ In (SSetInput t) (map (fun fm => SApply (fst fm) (snd fm)) acts)).
   { intro Hm. apply in_map_iff in Hm. destruct Hm as [x [Hx _]]. discriminate. }
-  destruct k as [|[t0|]|[c0|] [t0|]]; cbn [sprint_steps opt_step app kind_input] in *;
+  destruct k as [| |[t0|]|[c0|] [t0|]]; cbn [sprint_steps opt_step app kind_input] in *;
     repeat (destruct Hs as [Hs|Hs]; [try discriminate; try (inversion Hs; reflexivity)|]);
     try (exfalso; exact (Hnot Hs)); try destruct Hs.
 Qed.
@@ -331,11 +342,9 @@ Proof.
     + destruct (after_noop_modifier E fresh m c c1 evs Hwf Hs HA) as [K1 _].
       assert (Hsame := erase_same _ _ K1). destruct Hsame as [_ [_ [Hstat [_ [_ [_ [Hg _]]]]]]].
       intros Hact g Hin. rewrite Hg in Hin. apply HN; [unfold is_active in *; rewrite <- Hstat; exact Hact | exact Hin].
-  - destruct Hwf as [Hnd _]. destruct (ensure_query_groups_spec E c c1 evs Hnd H) as [G1 [_ [_ [_ [G5 _]]]]].
-    intros Hact g Hin. destruct (uses_query E g) eqn:Hu; [reflexivity|]. exfalso.
-    assert (Hact0 : is_active c = false) by (rewrite G1 in Hact; destruct c; exact Hact).
-    assert (Hin0 : In g (c_groups c)) by (apply G5; [intros [_ Hq]; congruence | exact Hin]).
-    rewrite (HN Hact0 g Hin0) in Hu. discriminate.
+  - destruct (ensure_spec c c1 evs Hwf H) as [G1 [_ [_ [G4 _]]]].
+    intros Hact g Hin. assert (Hact0 : is_active c = false) by (rewrite G1 in Hact; destruct c; exact Hact).
+    rewrite (G4 Hact0) in Hin. destruct Hin.
   - destruct (contact_json_eqb c c'); inversion H; subst; exact Hst.
   - inversion H; subst. intros Hact g Hin. apply HN; [destruct c; exact Hact | destruct c; exact Hin].
 Qed.
@@ -365,8 +374,43 @@ Proof.
   apply (steps_no_static _ c c' evs Hwf (sprint_steps_wf k acts Hk Hms)); [|exact HN | exact H].
   assert (Happ : Forall step_static_ok (map (fun fm => SApply (fst fm) (snd fm)) acts)).
   { apply Forall_map. apply Forall_forall. intros x _. exact I. }
-  destruct k as [|[t|]|[c0|] [t|]]; cbn [sprint_steps opt_step app];
+  destruct k as [| |[t|]|[c0|] [t|]]; cbn [sprint_steps opt_step app];
     repeat (constructor; try exact I; try exact Hks); exact Happ.
+Qed.
+
+(* since fix F6e every engine call ends with modifiers.ReevaluateGroups followed by modifiers only: no premise on the
+   starting or refreshed contact is needed any more *)
+Theorem sprint_no_static_full : forall k acts c c' evs,
+  wf_contact E c -> kind_wf k -> Forall (fun fm => mod_wf E (snd fm)) acts ->
+  run_sprint E k acts c = (c', evs) -> NoStaticIfInactive E c'.
+Proof.
+  intros k acts c c' evs Hwf Hk Hms H. unfold run_sprint in H.
+  set (applies := map (fun fm => SApply (fst fm) (snd fm)) acts) in *.
+  assert (Hsplit : exists pre tail, sprint_steps k acts = pre ++ SEnsure :: tail
+                               /\ Forall (step_wf E) pre /\ Forall (step_wf E) tail /\ Forall step_static_ok tail).
+  { assert (Happ : Forall (step_wf E) applies).
+    { apply Forall_map. eapply Forall_impl; [|exact Hms]. intros [f m] Hx. exact Hx. }
+    assert (Happ2 : Forall step_static_ok applies).
+    { apply Forall_map. apply Forall_forall. intros x _. exact I. }
+    destruct k as [| |[t|]|[c0|] [t|]]; cbn [sprint_steps opt_step app]; fold applies.
+    - exists [], []. repeat split; constructor.
+    - exists [], []. repeat split; constructor.
+    - exists [SEnsure; SSetInput t], applies. split; [reflexivity|]. split; [repeat constructor | split; assumption].
+    - exists [SEnsure], applies. split; [reflexivity|]. split; [repeat constructor | split; assumption].
+    - exists [SRefresh c0; SSetInput t], applies. split; [reflexivity|]. split; [constructor; [exact Hk | repeat constructor] | split; assumption].
+    - exists [SRefresh c0], applies. split; [reflexivity|]. split; [constructor; [exact Hk | constructor] | split; assumption].
+    - exists [SSetInput t], applies. split; [reflexivity|]. split; [repeat constructor | split; assumption].
+    - exists [], applies. split; [reflexivity|]. split; [constructor | split; assumption]. }
+  destruct Hsplit as [pre [tail [Hs [Hpre [Htail Htail2]]]]]. rewrite Hs, run_steps_app in H.
+  destruct (run_steps E pre c) as [c1 e1] eqn:H1.
+  destruct (run_steps E (SEnsure :: tail) c1) as [c2 e2] eqn:H2. inversion H; subst c' evs.
+  destruct (replay_steps pre c c1 e1 Hwf Hpre H1) as [_ W1].
+  cbn [run_steps run_step] in H2. destruct (ensure_query_groups E c1) as [c3 e3] eqn:H3.
+  destruct (run_steps E tail c3) as [c4 e4] eqn:H4. inversion H2; subst c2 e2.
+  destruct (ensure_spec c1 c3 e3 W1 H3) as [G1 [W3 [_ [G4 _]]]].
+  apply (steps_no_static tail c3 c4 e4 W3 Htail Htail2); [|exact H4].
+  intros Hact g Hin. assert (Hact1 : is_active c1 = false) by (rewrite G1 in Hact; destruct c1; exact Hact).
+  rewrite (G4 Hact1) in Hin. destruct Hin.
 Qed.
 
 End Steps.
@@ -392,8 +436,11 @@ Qed.
 
 Lemma ensure_agree : forall Es Em c, groups_env_agree Es Em -> ensure_query_groups Es c = ensure_query_groups Em c.
 Proof.
-  intros Es Em c [Ha [Hu Hm]]. unfold ensure_query_groups, reevaluate_query_groups.
-  rewrite Ha, (reeval_loop_agree Es Em c _ _ _ _ Hu Hm). reflexivity.
+  intros Es Em c [Ha [Hu Hm]]. unfold ensure_query_groups, reevaluate_groups, reevaluate_query_groups.
+  rewrite Ha, (reeval_loop_agree Es Em c _ _ _ _ Hu Hm).
+  destruct (reeval_loop Em c (all_groups Em) (c_groups c) [] []) as [[cur added] removed].
+  rewrite (filter_ext (fun g => negb (uses_query Es g)) (fun g => negb (uses_query Em g)) (fun g => f_equal negb (Hu g))).
+  reflexivity.
 Qed.
 
 Lemma run_steps2_agree : forall Es Em ss c, groups_env_agree Es Em -> run_steps2 Es Em ss c = run_steps Em ss c.
